@@ -5,3 +5,9 @@ import FP.Props.C11
 #print axioms FP.Props.C11.minimal_rendering_roundtrip
 #print axioms FP.Props.C11.rendering_in_context
 #print axioms FP.Props.C11.trailing_rejected
+#print axioms FP.Props.C11.full_rendering_roundtrip
+#print axioms FP.Props.C11.minimal_rendering_roundtrip_all
+#print axioms FP.Props.C11.renderings_agree
+#print axioms FP.Props.C11.redundant_parentheses
+#print axioms FP.Props.C11.parentheses_transparent
+#print axioms FP.Props.C11.type_operator_is_a_suffix
